@@ -1010,12 +1010,15 @@ class History(object):
         # target, or a custom sort of the DAG is declared with another arity there
         exp = None
         syms, sorts = self._dag_symbols(self.k(i))
+        bad = set()
         for name, t in syms:
             if symbefore.get(name, t) != t:
-                exp = "E:type"
+                bad.add("E:type")
         for name, ar in sorts:
             if decl.get(name, ar) != ar:
-                exp = exp or "E:value"
+                bad.add("E:value")
+        if bad:
+            exp = "|".join(sorted(bad))     # which one is met first depends on the traversal
         x = Res(e, got, out, None, exp, None, "normalize", special=("norm", i))
         self.res.append(x)
         self.ops.append("%d normalize %s" % (e, self.r(i)))
@@ -1852,7 +1855,7 @@ class History(object):
         e = x.env
         src_i = x.special[1]
         if x.obj is None or x.exp is not None:
-            if x.exp != x.out:
+            if x.out not in (x.exp or "").split("|"):
                 V.append(({"oracle": "normalize", "shape": "outcome", "expected": x.exp or "node", "got": x.out or "node"},
                           "op %d: normalize(%s) expected %s, got %s" % (idx, self.o(src_i), x.exp or "a copy", x.out or x.obj)))
             return
